@@ -86,10 +86,15 @@ CLAIMS = {
                      "nothing) is preserved by every phase and holds at every state of every run (C04_trace, C04_run); a newly added worker was FREE, "
                      "not absent and unassigned at that moment (C04_added, C04_added_present, C04_moment); allocate only appends (C04_prefix).",
                 design="6 C04", technique="Lean 4 invariant proof over the allocation folds (can_add_resources branch by branch) + phase-level correspondence"),
-    "C05": dict(text="Safety half proved for the model: simulate returns, its fuel is never the reason to stop (C05_fuel), status SUCCESS iff all tasks "
+    "C05": dict(text="Safety proved for the model: simulate returns, its fuel is never the reason to stop (C05_fuel), status SUCCESS iff all tasks "
                      "FINISHED, FAILURE only at time >= max_time, no step at or beyond max_time (C05_status, C05_run_time), and a non-automatic unfinished "
-                     "task without any eligible worker prevents SUCCESS (C05_unservable). The liveness half (every feasible project completes within the "
-                     "sequential work bound) is NOT a theorem yet: it is checked by search only (feasible generated models must succeed) — partial.",
+                     "task without any eligible worker prevents SUCCESS (C05_unservable). Liveness proved for fragment L (C05_live_partial, "
+                     "C05_live_shared, C05_live_dedicated): no facility tasks, automatic tasks without component and with positive rate, FS/SS links "
+                     "only on an acyclic in-range graph, every non-automatic task has an eligible worker (workers may be shared, solo, individually "
+                     "absent): if max_time >= |project absences| + |individual absences| + sum over tasks of (3 + ceil(rem0/delta)) the run ends in "
+                     "SUCCESS within that bound (decreasing-measure argument, C05_live_measure). Outside L — FF/SF links (a shared worker can be held by "
+                     "a waiting successor: machine-checked example, consistent with the property's 'worker of its own' premise), facility/component "
+                     "placement — liveness is checked by search only (explicit feasibility test and bound in the predicate).",
                 design="6 C05", technique="Lean 4 proof of the loop skeleton and of the unservable-task invariant + whole-run correspondence (status, time)"),
     "C10": dict(text="Clauses 1-2 proved for the model: at a project absence step nothing is allocated, non-automatic tasks keep their remaining work, "
                      "automatic ones progress iff the flag is set, every resource is logged ABSENCE and every cost entry is 0 (C10_absence_step, "
